@@ -275,3 +275,21 @@ M("C19", "C19-FORM", SA, "                        bins=np.linspace(0, 1, n_bins+
 M("C19", "C19-FORM", SA, "    return T / P.to_value(u.day)\n", "    return P.to_value(u.day) / T\n", "inverse")
 M("C19", "C19-FORM", SA, "    return T / P.to_value(u.day)\n", "    return T / P.value\n", "period unit ignored (seeded C19-B)")
 M("C19", "C19-FORM", SA, "    return (H > 0).sum() / n_bins\n", "    return (H > 1).sum() / n_bins\n", "bins with one observation not counted")
+
+# ---------------------------------------------------------------- C08
+M("C08", "C08-LOCK", DH, "        ids.append([k] * len(d))\n", "        if len(d) > 1:\n            ids.append([k] * len(d))\n", "ids append made conditional")
+M("C08", "C08-LOCK", DH, "        rv.append(d.rv.to_value(rv_unit))\n", "        rv.append(d.rv.to_value(d.rv.unit))\n", "velocities stripped in each source's own unit")
+M("C08", "C08-LOCK", DH, "        if rv_unit is None:\n            rv_unit = d.rv.unit\n", "        rv_unit = d.rv.unit\n", "common unit overwritten by every source (seeded C07-A)")
+M("C08", "C08-LOCK", DH, "        err.append(d.rv_err.to_value(rv_unit))\n", "        err.append(d.rv.to_value(rv_unit))\n", "errors taken from the velocities")
+M("C08", "C08-LOCK", DH, "        ids.append([k] * len(d))\n", "        ids.append([k] * len(data))\n", "id block has the wrong length")
+M("C08", "C08-LOCK", DH, "            for i, d in enumerate(data):\n                _d[i] = d\n", "            for i, d in enumerate(data):\n                _d[len(data) - i] = d\n", "list sources keyed in reverse: last source becomes the reference")
+M("C08", "C08-COL", LH, "        constant_part[ids == id_, j + 1] = 1.0\n", "        constant_part[ids == id_, j] = 1.0\n", "indicator written to column j")
+M("C08", "C08-COL", LH, "    for j, id_ in enumerate(unq_ids[1:]):\n", "    for j, id_ in enumerate(unq_ids[:-1]):\n", "last survey becomes the reference")
+M("C08", "C08-COL", LH, "    unq_ids = np.unique(ids)\n    constant_part = np.zeros((len(data), len(unq_ids)))\n\n    constant_part[:, 0] = 1.0\n    for j, id_ in enumerate(unq_ids[1:]):\n        constant_part[ids == id_, j + 1] = 1.0\n",
+  "    unq_ids, counts = np.unique(ids, return_counts=True)\n    constant_part = np.zeros((len(data), len(unq_ids)))\n\n    constant_part[:, 0] = 1.0\n    stops = np.cumsum(counts)\n    for j, id_ in enumerate(unq_ids[1:]):\n        constant_part[stops[j]:stops[j + 1], j + 1] = 1.0\n", "offset columns filled by position (seeded C08-B)")
+M("C08", "C08-COL", DH, "    if (len(np.unique(ids)) - 1) != n_offsets:\n        raise ValueError(", "    if False:\n        raise ValueError(", "count check deleted")
+M("C08", "C08-COL", LH, "    dt = data._t_bmjd - data._t_ref_bmjd\n", "    dt = data._t_bmjd - data._t_bmjd[0]\n", "trend measured from the first epoch (seeded C04-A)")
+M("C08", "C08-COL", LH, "    trend_M = np.vander(dt, N=poly_trend, increasing=True)[:, 1:]\n", "    trend_M = np.vander(dt, N=poly_trend)[:, :-1]\n", "trend columns in decreasing power order")
+M("C08", "C08-COL", PR, "        self.v0_offsets = v0_offsets\n", "        self.v0_offsets = sorted(v0_offsets, key=lambda p: p.name)\n", "offset priors sorted by name (seeded C08-A / C01-A)")
+M("C08", "C08-ORDER", DH, "    trend_M = get_trend_design_matrix(all_data, ids, poly_trend)\n\n    return all_data, ids, trend_M", "    ids = ids[np.argsort(np.concatenate(rv) if False else rv.value)]\n    trend_M = get_trend_design_matrix(all_data, ids, poly_trend)\n\n    return all_data, ids, trend_M", "ids re-sorted by the wrong key")
+T("C08", DH, "    ids = np.concatenate(ids)\n", "    ids = np.concatenate(ids)\n    ids = ids[np.argsort(t)]\n", "repaired tree: ids re-aligned with the time argsort (known finding disappears)")
